@@ -43,7 +43,7 @@ func c19R1(c *Ctx) {
 	n := 0
 	eachInstr(f, func(in ssa.Instruction) {
 		r, ok := in.(*ssa.Return)
-		if !ok || isNilConst(r.Results[0]) {
+		if !ok || isNilConst(retVal(r, 0)) {
 			return
 		}
 		n++
